@@ -99,6 +99,28 @@ func Run(cfg Config) int {
 	}
 	sort.Strings(pkgNames)
 	var anchorErrs []string
+	done := map[string]bool{}
+	verifyContract := func(pi *vc.PkgInfo, cn string, ct *vc.Contract) {
+		full := pi.Name + "." + cn
+		if done[full] {
+			return
+		}
+		done[full] = true
+		fo := pi.FuncNames[cn]
+		if cfg.Only != "" && !strings.Contains(full, cfg.Only) && !(fo == nil && eng.IsInterfaceMethod(pi, cn)) {
+			return
+		}
+		if fo == nil {
+			if eng.IsInterfaceMethod(pi, cn) {
+				results = append(results, &vc.FuncResult{Name: full, Pkg: pi.Name, Trusted: "interface contract (implementations are checked for refinement)", Serves: ct.Serves})
+				results = append(results, eng.Refinements(pi, cn, ct, cfg.Only)...)
+				return
+			}
+			anchorErrs = append(anchorErrs, fmt.Sprintf("%s: contract anchored on a function that no longer exists (%s:%d)", full, ct.File, ct.Line))
+			return
+		}
+		results = append(results, eng.VerifyFunc(pi, fo, ct))
+	}
 	for _, pn := range pkgNames {
 		pi := eng.Pkgs[pn]
 		var cnames []string
@@ -111,22 +133,7 @@ func Run(cfg Config) int {
 			if cfg.Prop != "" && !contains(ct.Serves, cfg.Prop) {
 				continue
 			}
-			full := pn + "." + cn
-			fo := pi.FuncNames[cn]
-			if cfg.Only != "" && !strings.Contains(full, cfg.Only) && !(fo == nil && eng.IsInterfaceMethod(pi, cn)) {
-				continue
-			}
-			if fo == nil {
-				if eng.IsInterfaceMethod(pi, cn) {
-					results = append(results, &vc.FuncResult{Name: full, Pkg: pn, Trusted: "interface contract (implementations are checked for refinement)", Serves: ct.Serves})
-					results = append(results, eng.Refinements(pi, cn, ct, cfg.Only)...)
-					continue
-				}
-				anchorErrs = append(anchorErrs, fmt.Sprintf("%s: contract anchored on a function that no longer exists (%s:%d)", full, ct.File, ct.Line))
-				continue
-			}
-			r := eng.VerifyFunc(pi, fo, ct)
-			results = append(results, r)
+			verifyContract(pi, cn, ct)
 		}
 		for _, lm := range pi.Spec.LemmaList {
 			if cfg.Prop != "" && !contains(lm.Serves, cfg.Prop) {
@@ -137,6 +144,33 @@ func Run(cfg Config) int {
 				continue
 			}
 			results = append(results, eng.ProveLemma(pi, lm))
+		}
+	}
+	// closure: every contract a verified body relies on (callees, implementations behind interface contracts) is
+	// verified in the same run, whatever its `serves` tags say
+	for changed := true; changed && cfg.Prop != "" && cfg.Only == ""; {
+		changed = false
+		var keys []string
+		for k := range eng.Called {
+			if !done[k] {
+				keys = append(keys, k)
+			}
+		}
+		sort.Strings(keys)
+		for _, k := range keys {
+			i := strings.Index(k, ".")
+			pi := eng.Pkgs[k[:i]]
+			if pi == nil {
+				done[k] = true
+				continue
+			}
+			ct := pi.Spec.Contracts[k[i+1:]]
+			if ct == nil {
+				done[k] = true
+				continue
+			}
+			verifyContract(pi, k[i+1:], ct)
+			changed = true
 		}
 	}
 	// closure: every lemma used (transitively) by what was selected is proved in the same run
@@ -223,8 +257,46 @@ func Run(cfg Config) int {
 	var slow []map[string]interface{}
 	solverSecs := 0.0
 	skipped := 0
+	// cover obligations: a return statement is covered when at least one path reaching it is satisfiable; it is an
+	// alarm only when every path reaching it is definitely contradictory (inconclusive answers are reported, not alarmed)
+	reachSat := map[string]bool{}
+	reachAllUnsat := map[string]bool{}
+	for _, o := range obls {
+		if o.Kind != "reach" {
+			continue
+		}
+		if _, seen := reachAllUnsat[o.Base]; !seen {
+			reachAllUnsat[o.Base] = true
+		}
+		if o.Status == "sat" {
+			reachSat[o.Base] = true
+		}
+		if o.Status != "unsat" {
+			reachAllUnsat[o.Base] = false
+		}
+	}
+	infeasiblePaths, coveredReturns, inconclusiveReturns := 0, 0, 0
+	for b := range reachAllUnsat {
+		if reachSat[b] {
+			coveredReturns++
+		} else if !reachAllUnsat[b] {
+			inconclusiveReturns++
+		}
+	}
 	for _, o := range obls {
 		solverSecs += o.Seconds
+		if o.Kind == "reach" {
+			if o.Status == "unsat" {
+				infeasiblePaths++
+			}
+			if reachSat[o.Base] || !reachAllUnsat[o.Base] {
+				discharged++
+				bySolver[o.Solver]++
+			} else {
+				failed = append(failed, o)
+			}
+			continue
+		}
 		ok := (!o.Vacuity && o.Status == "unsat") || (o.Vacuity && o.Status == "sat")
 		if ok {
 			discharged++
@@ -273,6 +345,9 @@ func Run(cfg Config) int {
 		what := "not discharged"
 		if o.Vacuity {
 			what = "precondition is contradictory or undecided (vacuity check)"
+		}
+		if o.Kind == "reach" {
+			what = "no satisfiable path reaches this return statement (cover check): the postconditions proved there are vacuous"
 		}
 		report(o.Base, fmt.Sprintf("obligation %s %s (status %s)\nat %s\nclause: %s", o.Name, what, o.Status, o.Pos, o.Src), o.SMT, o.Model, o.Status)
 	}
@@ -328,6 +403,9 @@ func Run(cfg Config) int {
 				"slowest":                  slow,
 				"samples":                  samples,
 				"lemma_uses":               eng.LemmaUse,
+				"returns_covered":          coveredReturns,
+				"returns_cover_inconclusive": inconclusiveReturns,
+				"infeasible_paths":         infeasiblePaths,
 				"refused":                  refused,
 				"known_findings":           knownHit,
 				"per_obligation_timeout_s": cfg.Timeout,
